@@ -19,6 +19,12 @@ ENGINES = [
         "serves_properties": ["C01", "C02", "C08", "C09", "C13", "C14"],
         "kind_free_text": "TLC executes the TLA+ reference EVM (256-bit words as byte limbs, all frame invariants checked in every state) on generated programs x inputs; halmos' symbolic paths are evaluated pointwise at the same inputs and every covering path's end state is compared with the TLC terminal state",
     },
+    {
+        "name": "word-tables",
+        "path": "spec/EvmWord.tla spec/EvmWordNat.tla spec/WordRefine.tla spec/WordTable.tla harness/wordops.py harness/progs_ops.py checks/c06.py",
+        "serves_properties": ["C06"],
+        "kind_free_text": "TLC model-checks the limb arithmetic against natural-number definitions and tabulates expected results; the tables are replayed into halmos' bit-vector classes at 8 and 256 bits in every operand representation",
+    },
 ]
 
 CHECKS: dict[str, dict] = {
@@ -35,6 +41,13 @@ CHECKS: dict[str, dict] = {
         "text": "For every generated program and every input (incl. models of each reported path) at least one reported path must have constraints that hold at the input unless the run was flagged (bounded loop, stuck path, escaped exception); runs rotate the branching timeout over 0/1ms/10s so that solver `unknown`s occur. Detects pruning on non-unsat answers, dropped branches/aliases/candidates and invalid auxiliary axioms at boundary points.",
         "note": "Same trusted base as C01; inputs outside the documented assumptions (balances > 2^128) are not generated.",
         "design_ref": "5 C02",
+    },
+    "C06": {
+        "engine": "word-tables",
+        "technique": "TLC tabulates every word-level instruction from EvmWord.tla (limb algorithms model-checked against EvmWordNat.tla); tables replayed into HalmosBitVec/HalmosBool and SEVM.run",
+        "text": "TLC first checks that the limb algorithms of EvmWord refine the natural-number definitions (all 8-bit operands on a grid / exhaustively in the thorough tier, 16- and 24-bit grids), then tabulates every operation for all 65 536 8-bit operand pairs and for 256-bit boundary/random vectors; the tables are replayed into the width-generic HalmosBitVec/HalmosBool methods in int-, term- and mixed representations (symbolic results are evaluated pointwise under the exact reading of the abstractions) and, through one-instruction programs, into the real SEVM.run dispatch with concrete, term-backed and boolean-typed operands. Every call is watched for exceptions and latency.",
+        "note": "Exhaustive only at 8 bits; at 256 bits boundary x boundary and random vectors. Universal validity over 2^256 operands is not proved (DESIGN section 9). The mirror of SEVM's dispatch in harness/wordops.py is itself validated by the one-instruction programs.",
+        "design_ref": "5 C06",
     },
     "C09": {
         "engine": "E1-reference-machine",
